@@ -2,7 +2,7 @@
 // libuscxml built from /repo's working tree (run under ASan via LD_PRELOAD is not needed: the token array is heap memory,
 // so the binary itself is compiled with -fsanitize=address and intercepts the library's malloc/free).
 //   replay_json parse <hex>      fromJSON(bytes): prints "VALUE <json>" or "EXCEPTION"; a crash / ASan report = reproduced
-//   replay_json rt <hex>         jsonUnescape(jsonEscape(s)) == s  and fromJSON(toJSON(Data(s))) == s ; exit 1 if not
+//   replay_json rt <hex>         jsonUnescape(jsonEscape(s)) == s, fromJSON(toJSON([s])) == [s] and fromJSON(toJSON({s: s})) == {s: s} ; exit 1 if not
 #define protected public
 #include "uscxml/messages/Data.h"
 #undef protected
@@ -67,6 +67,14 @@ int main(int argc, char **argv) {
       if (back.array.size() != 1 || back.array.front().atom != s) { std::cout << "REPRODUCED fromJSON(toJSON([s])) != [s]" << std::endl; bad = 1; }
     } catch (...) {
       std::cout << "REPRODUCED fromJSON(toJSON([s])) throws" << std::endl; bad = 1;
+    }
+    try {
+      /* the same string as an object KEY and as a string VALUE below a key */
+      Data obj; obj.compound[s] = Data(s, Data::VERBATIM);
+      Data back = Data::fromJSON(Data::toJSON(obj));
+      if (back.compound.size() != 1 || back.compound.begin()->first != s || back.compound.begin()->second.atom != s) { std::cout << "REPRODUCED fromJSON(toJSON({s: s})) != {s: s}" << std::endl; bad = 1; }
+    } catch (...) {
+      std::cout << "REPRODUCED fromJSON(toJSON({s: s})) throws" << std::endl; bad = 1;
     }
     if (!bad) std::cout << "HELD" << std::endl;
     return bad;
